@@ -161,7 +161,7 @@ def run(ctx, res):
         a = _copy.deepcopy(c); a['cfg']['udf_source'] = 'udfs.py'
         b = _copy.deepcopy(c); b['cfg']['udf_source'] = 'udfs_alt.py'
         alone = [family.run_sequence(ctx, [a])[0], family.run_sequence(ctx, [b])[0]]     # each in a fresh process of its own
-        seq = family.run_sequence(ctx, [a, b, a])
+        seq = family.run_sequence(ctx, [a, b, a], reuse_dirs=True)      # the third call names the very file of the first one
         res.evaluations += 1
         res.count('udf-file-sequence')
         for i, (got, exp) in enumerate(zip(seq, [alone[0], alone[1], alone[0]])):
